@@ -22,6 +22,7 @@ from bibtexparser import model as M
 from bibtexparser.library import Library
 
 CUSTOM = "%% custom {n} line(s) failed"
+BAD = "% failed {n} {oops}"     # cannot be filled in with n alone: str.format raises KeyError
 COLMAX = 14
 
 
@@ -60,7 +61,14 @@ def drv(spec, indent, sep, trailing, column, custom, column2=None):
     if custom is not None:
         fmt.parsing_failed_comment = custom
     before = dict(fmt.__dict__)
-    out = WR.write(lib, fmt)
+    if custom == BAD:
+        # a template the writer cannot fill in: whatever write() does about it, the caller's format stays as it was
+        try:
+            out = WR.write(lib, fmt)
+        except (KeyError, IndexError, ValueError):
+            out = None
+    else:
+        out = WR.write(lib, fmt)
     after = dict(fmt.__dict__)
     out2 = None
     if column2 is not None:
@@ -134,12 +142,15 @@ def replay(spec, indent, sep, trailing, column, custom, column2=None):
     except Exception as ex:  # noqa
         return {"input": [spec, indent, sep, trailing, column, custom], "observed": f"raised {type(ex).__name__}: {ex}", "expected": "text"}
     col = auto_col(spec) if column == "auto" else column
-    exp = [t for c, t in render(spec, indent, sep, trailing, col, custom) if c is True]
+    exp = [] if custom == BAD else [t for c, t in render(spec, indent, sep, trailing, col, custom) if c is True]
     ok2 = True
     if column2 is not None:
         exp2 = [t for c, t in render(spec, indent, sep, trailing, column2, custom) if c is True]
         ok2 = len(exp2) == 1 and out2 == exp2[0]
-    if len(exp) == 1 and out == exp[0] and before == after and ok2:
+    if custom == BAD:
+        if before == after:
+            return None
+    elif len(exp) == 1 and out == exp[0] and before == after and ok2:
         return None
     return {"input": [spec, indent, sep, trailing, column, custom, column2], "observed": {"text": out, "second_text": out2, "format_changed": before != after},
             "expected": exp[0] if exp else "?"}
@@ -181,6 +192,10 @@ def task(shape, column_kind, custom, seplen, indlen, column2=None):
         out, before, after, nb, out2 = W.result
         same_fmt = set(before) == set(after) and b_all(E(before[k], after[k]) for k in before)
         rec.require(W, b_not(same_fmt), "format-unchanged", rp)
+        if custom == BAD:
+            if out is None:
+                rec.witness("write-raised", W)
+            continue
         cols = [auto_col(spec)] if column == "auto" else list(range(0, COLMAX + 1))
         for col in cols:
             ccol = True if column == "auto" else i_cmp("==", column, col)
@@ -230,9 +245,15 @@ def main():
         for a, b, c in itertools.product([("E", (1, 2)), ("E", (3,)), ("S",), ("I",), ("F", 2)], repeat=3):
             shapes.append([a, b, c])
     chk.bounds = {"libraries": f"{len(shapes)} shapes (entries with 0..3 fields and key lengths 1..4, string, preamble, both comments, failed and duplicate blocks; singles, all pairs" + (", triples" if chk.tier == "thorough" else "") + ")",
-                  "format": f"value_column symbolic 0..{COLMAX} or 'auto'; trailing_comma symbolic; indent 0..2 symbolic chars over blank/tab/'z'; separator 0..2 symbolic chars over newline/blank/'-'; default and custom parsing_failed_comment"}
+                  "format": f"value_column symbolic 0..{COLMAX} or 'auto'; trailing_comma symbolic; indent 0..2 symbolic chars over blank/tab/'z'; separator 0..2 symbolic chars over newline/blank/'-'; default and custom parsing_failed_comment; the empty library; an unfillable parsing_failed_comment template (write raises: format must stay unchanged)"}
     chk.assumptions = ["keys/values/texts contain no newline except failed-block raws (statement: 'own line')", "string/preamble/comment renderings are the writer's documented forms (@string{k = v}, @preamble{v}, @comment{c}, free text + newline)"]
-    chk.expected_vacuity = ["failed-block-rendered", "format-reused"]
+    chk.expected_vacuity = ["failed-block-rendered", "format-reused", "write-raised"]
+    # the empty library, and a write that raises half-way (unfillable parsing_failed_comment template): format untouched
+    for ck in ("int", "auto"):
+        chk.add_task(f"empty-library-{ck}", task, shape=[], column_kind=ck, custom=None, seplen=1, indlen=1)
+        for shape in ([("E", (1, 2)), ("F", 2)], [("F", 2), ("E", (3,))], [("F", 1)]):
+            name = "+".join(s[0] for s in shape)
+            chk.add_task(f"raising-{name}-{ck}", task, shape=shape, column_kind=ck, custom=BAD, seplen=1, indlen=1)
     # equal blocks (same content, same line) and a format object reused with another column
     for shape in ([("X",), ("X",)], [("I",), ("X",), ("I",)], [("P",), ("P",)], [("X",), ("E", (1,)), ("X",)]):
         name = "+".join(s[0] for s in shape)
